@@ -51,6 +51,8 @@ def oracle(impl_line, invalid):
 
 TEST = "TestVerifProbeConfig"
 MAX_CRASHES = 4
+CHUNK = 3000       # cases per probe process: every started-and-stopped notifier coordinator leaves goroutines behind
+                   # (manageEvalLoop has no quit path), so a process that runs 10^4 configurations reaches the ulimit -v of the probe
 
 
 def run_shard(chk, cases, name, timeout, crashed):
@@ -58,12 +60,14 @@ def run_shard(chk, cases, name, timeout, crashed):
     error, a hang killed by the timeout), that single case is run again in a child process of its own: if the child also
     ends without printing the case's output line, the case gets the pseudo output `EXIT <status> ...` (which the property's
     oracle reads as "start-up crashed", a concrete failing configuration) and the shard goes on behind it."""
-    out, rest, attempt = [], list(cases), 0
+    out, rest, attempt, runs = [], list(cases), 0, 0
     while rest:
-        run = "%s_r%d" % (name, attempt)
+        run = "%s_r%d" % (name, runs)
+        runs += 1
+        now, later = rest[:CHUNK], rest[CHUNK:]
         try:
-            out += chk.run_impl("config", TEST, rest, name=run, timeout=timeout, extra_env=ENV)
-            break
+            out += chk.run_impl("config", TEST, now, name=run, timeout=timeout, extra_env=ENV)
+            rest = later
         except ProbeCrashed as e:
             if e.case is None:
                 raise
@@ -73,12 +77,12 @@ def run_shard(chk, cases, name, timeout, crashed):
             try:
                 alone = chk.run_impl("config", TEST, [e.case], name=run + "_alone", timeout=min(timeout, 300), extra_env=ENV)
                 out.append(alone[0])       # not reproducible on its own: keep what it prints, report the batch crash separately
-                crashed.append((e.case, e.rc, (e.out or "")[-600:], False))
+                crashed.append((e.case, e.rc, (e.out or "")[:1500] + "\n[...]\n" + (e.out or "")[-600:], False))
             except ProbeCrashed as e1:
                 tail = [l for l in (e1.out or "").splitlines() if l.strip()][-1:] or [""]
                 out.append("EXIT %s the process ended inside core.Start without Start returning [%s]" % (e1.rc, tail[0][:160]))
                 crashed.append((e.case, e1.rc, (e1.out or "")[-600:], True))
-            rest = rest[e.done + 1:]
+            rest = now[e.done + 1:] + later
             attempt += 1
             if attempt >= MAX_CRASHES and rest:
                 out += ["SKIPPED (the probe process died %d times in this shard)" % attempt] * len(rest)
@@ -119,7 +123,7 @@ def differential(chk, cases, name, timeout=6000):
     for case, rc, out, alone in crashed:
         chk.count("probe-process-died:" + ("reproduced-alone" if alone else "only-in-batch"))
         if not alone:
-            chk.violation("impl_crashed_in_batch", {
+            chk.violation("impl_crashed_in_batch_%d" % (abs(hash(case)) % 100000), {
                 "kind": "input", "probe": "core/TestVerifProbeConfig", "case": case, "exit_status": rc, "output_tail": out,
                 "broken": "the probe process died while running this case in a batch (exit status %s) but not when the case "
                           "was run on its own" % rc}, found_input=False)
